@@ -101,7 +101,7 @@ func selfTest(ctx *core.Ctx) error {
 	pl.add(&Req{Wiring: w0, Variant: 1}, "wiring:pages", w0.key(), nil)
 	var real []Rec
 	results := map[string]*Result{}
-	if err := pool.Run(pl.reqs, 2, func(r *Result) { results[r.Req.ID] = r; real = append(real, r.Recs...) }); err != nil {
+	if err := pool.Run(pl.reqs, 2, func(r *Result) { results[r.Req.ID] = r; real = append(real, r.Recs...) }, nil); err != nil {
 		return err
 	}
 	if len(real) < 20 {
